@@ -170,7 +170,9 @@ def history_failures(rec, resumed=False):
     k = len(h.beta)
     for nm in ("log_norm_ratio", "log_norm_ratio_var", "ess", "ess_target", "eff_target", "mcmc_acceptance"):
         if len(getattr(h, nm)) != k:
-            f.append((f"C18 len(history.{nm}) == iterations", (nm, len(getattr(h, nm)), k)))
+            nf = rec["opts"].get("n_final_samples")
+            tag = " [after final enlargement]" if (nm == "mcmc_acceptance" and nf is not None and nf != rec["n"]) else ""
+            f.append((f"C18 len(history.{nm}) == iterations{tag}", (nm, len(getattr(h, nm)), k)))
     sh = h.sample_history
     if rec["opts"].get("store_sample_history", True):
         if len(sh) != k + 1:
